@@ -187,3 +187,14 @@ PROPS["C15"] = dict(explanation="Bounded symbolic execution of the real NewTimeB
     bounds=["1..2 columns after Epoch; name length in {1, 32, 33} (thorough +{5, 31, 40}), characters arbitrary printable ASCII (33..126), names distinct and not 'Epoch'", "column type in {FLOAT32, INT64, UINT8, STRING16} (thorough: all 12 element types)", "timeframes 1Sec, 1Min, 1D (thorough: all of utils.Timeframes); fixed and variable record type"],
     outside=["names containing NUL or non-printable bytes (bytes.Trim strips NULs)", "more than 2 columns (the 1024-column format limit is not exercised)", "data never overlaps the header: see C30 (slot-after-header, known finding for 1D index 0); writes after creation", "known finding region: a column name longer than 32 bytes is silently truncated instead of being rejected"],
     stubs=FS_STUBS, assumptions=COMMON_ASSUME)
+
+
+AGG_STUBS = ["reflect: engine mini-reflect", "regexp on concrete strings: native call-out", "time.Time bit packing / Truncate: semantic model (see C10, C31)"]
+PROPS["C21"] = dict(explanation="Bounded symbolic execution of the real tick candler (tickcandler.TickCandler.New/Accum, candler.Candler.New/init/GetCandle/Output, Candle.AddCandle/SerializeToRowData, utils.CandleDuration.Truncate/IsWithin, GetAverageColumnFloat32, functions.ArgumentMap, Rows.ToColumnSeries) on 1..3 price rows given in arbitrary order: each row's window is case-split (2 windows), its second and nanosecond inside the window and its price are symbolic, timestamps pairwise distinct. Oracle, independent of row order: one candle per window that has rows, ascending, stamped with the window start; open/close are the prices of the earliest/latest row, high/low the extremes. Prices are exact dyadic float32 values, only compared and copied, so no floating-point approximation is involved.",
+    runs=[dict(pkg="contrib/candler/candlecandler", files=["c21_candles.go"], entries=["VerifC21TickCandles"], must_reach=["entered", "aggregated"], opts=dict(timeout=30))],
+    bounds=["timeframes 1Min, 5Min, 1H, 1D", "1..3 rows over 2 consecutive windows, any order; second, nanosecond and price (k/16, |k|<=2^20) symbolic"],
+    outside=["Sum/Avg output columns", "candle inputs (C22)", "rows with identical timestamps (open/close then depend on order by design)", "NaN/Inf prices"], stubs=AGG_STUBS, assumptions=COMMON_ASSUME)
+PROPS["C22"] = dict(explanation="As C21, plus candlecandler.CandleCandler.Accum: the same rows are aggregated directly into the coarse timeframe and, in two stages, into fine candles and then into coarse candles; both results must agree in window, open, high, low and close.",
+    runs=[dict(pkg="contrib/candler/candlecandler", files=["c21_candles.go"], entries=["VerifC22Compose"], must_reach=["entered", "aggregated"], opts=dict(timeout=30))],
+    bounds=["timeframe pairs (1Min,5Min), (5Min,1H), (1H,1D), (10Sec,1Min)", "1..3 rows; each row's fine window case-split over the first two and the last fine window of coarse window 0 and the first of coarse window 1; second, nanosecond, price symbolic, timestamps distinct"],
+    outside=["fine windows in the middle of a coarse window other than the second", "more than 3 rows", "Sum/Avg columns"], stubs=AGG_STUBS, assumptions=COMMON_ASSUME)
